@@ -263,5 +263,5 @@ def run(tier: str, seed: int) -> int:
     if bad and len(chk.violations) == before:
         raise MachineryError("MC_DaskFrame: invariant violated but every behaviour replays correctly: DaskFrame.tla mis-describes the mechanism\n"
                              + bad[0].out[bad[0].out.index("Error:"):][:1500])
-    chk.exhaustive = True
+    chk.exhaustive = False      # shards of the initial frames are sampled in both tiers (each shard exhaustively); World is explored by simulation
     return chk.finish()
